@@ -16,10 +16,12 @@ def caught_by(r):
     obs = []
     for c in r.get("checks", []):
         for l in c["lines"]:
-            m = re.search(r"obligation (\S+?)[:\s]", l.strip() + " ")
+            m = re.match(r"obligation (.+?)(: |$)", l.strip())
             if l.strip().startswith("obligation") and m:
                 o = m.group(1).rstrip(":")
                 o = o.replace("spsdk.", "")
+                if len(o) > 110:
+                    o = o[:107] + "..."
                 if o not in obs:
                     obs.append(o)
     ex = ",".join(str(c["exit"]) for c in r.get("checks", []))
@@ -30,7 +32,7 @@ rows = ["| seeded change | property | what it breaks | verdict | reported obliga
 for d in sorted(os.listdir(os.path.join(V, "seeded"))):
     meta = json.load(open(os.path.join(V, "seeded", d, "meta.json")))
     v, ob = caught_by(res.get("seeded/" + d))
-    rows.append(f"| `{d}` | {meta['property']} | {meta['breaks'][:150].replace('|', '/')} | {v} | `{ob[:160]}` |")
+    rows.append(f"| `{d}` | {meta['property']} | {meta['breaks'][:150].replace('|', '/')} | {v} | `{ob.split('; ')[0][:120]}` |")
 seeded = "\n".join(rows)
 
 by = {}
